@@ -309,9 +309,9 @@ func (Sim) Run(raw json.RawMessage, prop string, keep bool) (res simfw.Result) {
 			wrap()
 			res.Probe("vh-middleware-before-load")
 		case "reload":
-			other := s.Doc
-			other.Secured, other.ReqHeader, other.ObjParam = !other.Secured, !other.ReqHeader, !other.ObjParam
-			otherYAML, otherPath := other.YAML(), "/simfs/"+s.Marker+"/earlier.yaml"
+			// (the same document at another path: whether a second Load replaces the document in force is an API
+			// question the property does not settle; that the chain still works after one is what is exercised)
+			otherYAML, otherPath := yaml, "/simfs/"+s.Marker+"/earlier.yaml"
 			prev := zzsimrt.ReadFileFunc
 			zzsimrt.ReadFileFunc = func(name string) ([]byte, error, bool) {
 				if name == otherPath {
@@ -373,7 +373,7 @@ func (Sim) Run(raw json.RawMessage, prop string, keep bool) (res simfw.Result) {
 			}
 			return fmt.Sprintf("%s/%s:%s", Prop, o, mode+"/"+shape)
 		}
-		if panicked != nil && rec.Aborted {
+		if rec.Aborted {
 			// (by what the script did, not by the panic value: a middleware may recover the handler's panic,
 			// clean up and panic again with a value of its own)
 			// the scripted handler crashed: the panic is the handler's, not the middleware's. Nothing of the
@@ -427,7 +427,7 @@ func (Sim) Run(raw json.RawMessage, prop string, keep bool) (res simfw.Result) {
 		}
 		// construction intent (independent of the library)
 		intent := q.Intent
-		if intent == "valid" && q.Method == "POST" && s.Doc.Secured && nAuthFails {
+		if intent == "valid" && q.Method == "POST" && strings.Contains(q.Path, "/items/") && s.Doc.Secured && nAuthFails {
 			intent = "invalid:auth"
 		}
 		if intent == "invalid:auth" && !nAuthFails {
@@ -452,6 +452,12 @@ func (Sim) Run(raw json.RawMessage, prop string, keep bool) (res simfw.Result) {
 			// the validator itself observed the stream error while the operation declares a body to validate: it must reject
 			expect = "400"
 			res.Probe("fault-seen-by-validator")
+			if q.GetBody == "ok" && rec.Entered > 0 {
+				// (unless it went back to the request's GetBody, which yields the complete body: then passing
+				// what the intact request deserves is right)
+				expect = "pass"
+				res.Probe("fault-recoverable-through-getbody")
+			}
 		}
 		res.Probe("expect-" + expect)
 
